@@ -13,6 +13,8 @@ character set taken from the Go source, byte values written out here.
   before any other byte it is kept (the `$` and backquote escapes of POSIX are outside
   this tokenizer: it performs no expansions) — and backslash-newline is removed.
   The flag is false when the input ends inside quotes or right after a backslash.
+* `endsTokens` / `consumedPrefix`: the bytes a scanner has consumed when it has delivered given
+  tokens — the shortest prefix whose reference fields are these tokens, the last one terminated.
 * `posixWord`: evaluation of ONE shell word in which every byte with special
   meaning to the shell must be quoted, else `none`.
 -/
@@ -69,6 +71,30 @@ end
 
 /-- the reference tokenizer: fields and "input complete" -/
 def refSplit (s : List UInt8) : List (List UInt8) × Bool := refGap s
+
+/-! ### how much of the input a scanner has consumed when it has delivered some tokens
+
+A scanner that returns a token as soon as the separator ending it is read has consumed, when it has
+delivered the tokens `toks` (each ended by a separator), the SHORTEST prefix of the input whose
+reference tokenisation yields exactly `toks`, all complete, with the last one terminated: a further
+ordinary byte would start a new field instead of extending the last one.  Computed from `refSplit`
+alone.  (`none`: no prefix ends the tokens — the last token runs to the end of the input.) -/
+
+/-- the reference fields of `p` are `toks`, complete, and the last one is terminated -/
+def endsTokens (toks : List (List UInt8)) (p : List UInt8) : Bool :=
+  refSplit p == (toks, true) && (refSplit (p ++ [120])).1 == toks ++ [[120]]
+
+/-- the least `k' ≥ k` (within `fuel`) such that `input.take k'` ends the tokens -/
+def consumedFrom (toks : List (List UInt8)) (input : List UInt8) : Nat → Nat → Option Nat
+  | 0, _ => none
+  | fuel + 1, k =>
+    if endsTokens toks (input.take k) then some k
+    else if k ≥ input.length then none
+    else consumedFrom toks input fuel (k + 1)
+
+/-- the shortest prefix of `input` that ends the tokens `toks` -/
+def consumedPrefix (toks : List (List UInt8)) (input : List UInt8) : Option (List UInt8) :=
+  (consumedFrom toks input (input.length + 1) 0).map input.take
 
 /-- POSIX §2.2: `| & ; < > ( ) $ backquote \ " ' space tab newline` must be quoted to represent
     themselves, and `* ? [ # ~ = %` "may need to be quoted under certain circumstances". -/
